@@ -34,6 +34,38 @@ TOKENS = {'NE': 'NE¼', 'NW': 'NW¼', 'SE': 'SE¼', 'SW': 'SW¼',
           'N': 'N½', 'S': 'S½', 'E': 'E½', 'W': 'W½'}
 
 
+def _chain_language(ctx):
+    """every clean chain of halves and quarters, in any order, is unpacked as ONE aliquot"""
+    import re as _re
+    from .. import rx as _rx
+    from . import families as _F
+    rv = ctx.fold.get('rgxlib.aliquots', 'aliquot_unpacker_regex')
+    cex = ctx.cache(('inc', _F.ALIQUOT_CHAIN, rv.pattern, rv.flags),
+                    lambda: _rx.included(_F.ALIQUOT_CHAIN, 0, rv.pattern, rv.flags))
+    ctx.check(cex is None, 'RX-LANG', 'clean aliquot chains (halves and quarters in any order) <= L(aliquot_unpacker_regex)',
+              'family included',
+              f"the chain {cex!r} is no longer matched as a whole by aliquot_unpacker_regex: the aliquot is dropped / cut "
+              f"in two by TractParser", key='RX-LANG|aliquot_unpacker_regex|chains', witness=repr(cex))
+
+
+# what may directly follow an element of a tract description
+ELEMENT_SEPARATORS = ('; Lot 1', ', Lot 1', '\nLot 1', ' Lot 1', '.', ';', ',')
+
+
+def half_plus_q_contexts(ctx, followers):
+    """a bare quarter after a half is completed whatever legitimately follows the element"""
+    hq = ctx.fold.get('rgxlib.aliquots', 'half_plus_q_regex')
+    Lh = common.lang(ctx, hq)
+    for nxt in followers:
+        for pre in ('S½NE', 'N½ SW', 'E½ of the NW'):
+            s_ = pre + nxt
+            ctx.check((0, len(pre)) in Lh.search_spans(s_), 'RX-LANG-CTX',
+                      f"half_plus_q_regex completes {pre!r} when followed by {nxt!r}",
+                      detail_bad=f"in {s_!r} the bare quarter after the half is no longer recognised (look-ahead misses {nxt!r}): "
+                                 f"the element is not completed and disappears from the aliquots",
+                      key=f"RX-LANG-CTX|half_plus_q_regex|{pre}|{nxt}")
+
+
 def check(ctx):
     ctx.consult('tract/tract_preprocess.py', 'rgxlib/aliquots.py', 'tract/tract_parse.py')
     aq = 'rgxlib.aliquots'
@@ -60,6 +92,7 @@ def check(ctx):
     ctx.attempt(lockdown, ctx.repo.func('Tract.preprocess'), only=('clean_qq',))
     ctx.attempt(fresh_inputs, specs=(('Tract.parse', 'TractParser', 'tract_parse'),))
     ctx.attempt(common.embedded_case_consistency, modules=('rgxlib.aliquots',))
+    ctx.attempt(_chain_language)
 
 
 def _tables(ctx, base):
@@ -208,13 +241,8 @@ def _joiners(ctx):
                   detail_bad=f"{s!r} (bare quarter directly after a half) is no longer recognised",
                   key=f"RX-LANG|half_plus_q_regex|{s}")
     # a bare quarter directly before an already clean component is completed too
-    for nxt in ('NE¼', 'NW¼', 'SE¼', 'SW¼', 'N½', 'S½', 'E½', 'W½', ' of', ', less'):
-        for pre in ('S½NE', 'N½ SW', 'E½ of the NW'):
-            s_ = pre + nxt
-            ctx.check((0, len(pre)) in Lh.search_spans(s_), 'RX-LANG-CTX',
-                      f"half_plus_q_regex completes {pre!r} when followed by {nxt!r}",
-                      detail_bad=f"in {s_!r} the bare quarter after the half is no longer recognised (look-ahead misses {nxt!r}): "
-                                 f"the iterated substitution stops half-way", key=f"RX-LANG-CTX|half_plus_q_regex|{pre}|{nxt}")
+    half_plus_q_contexts(ctx, ('NE¼', 'NW¼', 'SE¼', 'SW¼', 'N½', 'S½', 'E½', 'W½', ' of', ', less'))
+    half_plus_q_contexts(ctx, ELEMENT_SEPARATORS)
     for s in ('NE', 'NENW', ' NE', 'of NE'):
         ctx.check(not Lh.search(s), 'RX-LANG-NEG', f"half_plus_q_regex needs a leading half: {s!r}",
                   detail_bad=f"a bare quarter {s!r} is treated as an aliquot without clean_qq",
